@@ -407,7 +407,7 @@ func judgeHistory(res *core.Result, prop string, calls []callRec, resps []respRe
 					last = &resps[ri]
 				}
 			}
-			if last == nil || last.failed || last.minTTL <= 0 || math.IsInf(last.minTTL, 1) || len(last.values) == 0 {
+			if last == nil || last.failed || last.minTTL <= 0 || math.IsInf(last.minTTL, 1) || last.nAns == 0 {
 				continue // answers without records may be dropped early (documented: kept 300 s)
 			}
 			if (c.t1 - last.done).Seconds() >= last.minTTL {
